@@ -139,7 +139,13 @@ func H_C05_Retransmit(v *verifrt.T) {
 	restart := v.Choose("restart-before-retransmission", 2) == 1
 	oldLog := false
 	if restart {
-		if v.Param("OLDLOG", 1) == 1 && v.Choose("log-record-older-than-recovery-window", 2) == 1 {
+		switch v.Choose("age-of-the-log-record-at-restart", 2+v.Param("OLDLOG", 1)) {
+		case 1:
+			// delivered some hours ago: inside the window (24 h) that a restart
+			// reloads from the receive log
+			passTime(v, e, v.Duration("hours-since-delivery", 2*time.Hour, 23*time.Hour))
+			v.Reach("aged-within-window")
+		case 2:
 			oldLog = true
 			for k := range e.logger.records {
 				e.logger.records[k].old = true
